@@ -88,7 +88,10 @@ def _type_defs(src):
                 j += 1
                 break
             j += 1
-        out[m.group(3)] = re.sub(r'\s+', ' ', body[m.start():j]).strip()
+        text = re.sub(r'\s+', ' ', body[m.start():j]).strip()
+        # the order of the entries of a derive list means nothing
+        text = re.sub(r'#\[derive\(([^)]*)\)\]', lambda d: '#[derive(%s)]' % ', '.join(sorted(x.strip() for x in d.group(1).split(',') if x.strip())), text)
+        out[m.group(3)] = text
     return out
 
 
